@@ -608,30 +608,43 @@ theorem bindPos_spec {α} (pos : List (Nat × Dflt)) (args : List (Option α))
 
 /-! ### `separate_input_attributes_from_arguments` -/
 
+theorem findTok_mem {k v : Nat} {kwargs : List (Nat × Nat)} (hk : findTok k kwargs = some v) :
+    (k, v) ∈ kwargs := by
+  induction kwargs with
+  | nil => simp [findTok] at hk
+  | cons q qs ihq =>
+    simp only [findTok] at hk
+    split at hk
+    next hq =>
+      simp only [beq_iff_eq] at hq
+      simp only [Option.some.injEq] at hk
+      have : q = (k, v) := Prod.ext hq hk
+      rw [this]; exact List.mem_cons_self
+    next => exact List.mem_cons_of_mem _ (ihq hk)
 
 /-- invariant of the loop with `fill_defaults=False`: every attribute collected is a value the caller wrote -/
 theorem sepLoop_nofill_written (args : List Nat) (kwargs : List (Nat × Nat))
-    (ps : List SigParam) (rest ins : List Nat) (attrs : List (Nat × Nat)) (hv : Bool)
+    (ps : List SigParam) (rest : List Nat) (ins : List (Option Nat)) (attrs : List (Nat × Nat)) (hv : Bool) (tp : Nat)
     (hrest : ∀ a ∈ rest, a ∈ args)
     (hacc : ∀ kv ∈ attrs, kv.2 ∈ args ∨ kv ∈ kwargs)
-    {ins' : List Nat} {attrs' : List (Nat × Nat)} {hv' : Bool} {rest' : List Nat}
-    (h : sepLoop kwargs false ps rest ins attrs hv = .ok (ins', attrs', hv', rest')) :
+    {ins' : List (Option Nat)} {attrs' : List (Nat × Nat)} {hv' : Bool} {rest' : List Nat} {tp' : Nat}
+    (h : sepLoop kwargs false ps rest ins attrs hv tp = .ok (ins', attrs', hv', rest', tp')) :
     ∀ kv ∈ attrs', kv.2 ∈ args ∨ kv ∈ kwargs := by
-  induction ps generalizing rest ins attrs hv with
+  induction ps generalizing rest ins attrs hv tp with
   | nil =>
     simp only [sepLoop, Except.ok.injEq, Prod.mk.injEq] at h
-    rcases h with ⟨_, rfl, _, _⟩; exact hacc
+    rcases h with ⟨_, rfl, _, _, _⟩; exact hacc
   | cons p ps ih =>
     simp only [sepLoop] at h
     split at h
-    · exact ih _ _ _ _ (by intro a ha; cases ha) hacc h
+    · exact ih _ _ _ _ _ (by intro a ha; cases ha) hacc h
     · cases rest with
       | cons a rest1 =>
         simp only at h
         have hr1 : ∀ x ∈ rest1, x ∈ args := fun x hx => hrest x (List.mem_cons_of_mem _ hx)
         split at h
-        · exact ih _ _ _ _ hr1 hacc h
-        · refine ih _ _ _ _ hr1 ?_ h
+        · exact ih _ _ _ _ _ hr1 hacc h
+        · refine ih _ _ _ _ _ hr1 ?_ h
           intro kv hkv
           rcases List.mem_append.mp hkv with h1 | h1
           · exact hacc kv h1
@@ -642,22 +655,10 @@ theorem sepLoop_nofill_written (args : List Nat) (kwargs : List (Nat × Nat))
         cases hk : findTok p.name kwargs with
         | some v =>
           rw [hk] at h; simp only at h
-          have hmem : (p.name, v) ∈ kwargs := by
-            clear h ih hacc hrest
-            induction kwargs with
-            | nil => simp [findTok] at hk
-            | cons q qs ihq =>
-              simp only [findTok] at hk
-              split at hk
-              next hq =>
-                simp only [beq_iff_eq] at hq
-                simp only [Option.some.injEq] at hk
-                have : q = (p.name, v) := Prod.ext hq hk
-                rw [this]; exact List.mem_cons_self
-              next => exact List.mem_cons_of_mem _ (ihq hk)
+          have hmem : (p.name, v) ∈ kwargs := findTok_mem hk
           split at h
-          · exact ih _ _ _ _ (by intro a ha; cases ha) hacc h
-          · refine ih _ _ _ _ (by intro a ha; cases ha) ?_ h
+          · exact ih _ _ _ _ _ (by intro a ha; cases ha) hacc h
+          · refine ih _ _ _ _ _ (by intro a ha; cases ha) ?_ h
             intro kv hkv
             rcases List.mem_append.mp hkv with h1 | h1
             · exact hacc kv h1
@@ -666,12 +667,70 @@ theorem sepLoop_nofill_written (args : List Nat) (kwargs : List (Nat × Nat))
           rw [hk] at h; simp only at h
           split at h
           · simp only [Bool.false_eq_true, if_false] at h
-            exact ih _ _ _ _ (by intro a ha; cases ha) hacc h
+            exact ih _ _ _ _ _ (by intro a ha; cases ha) hacc h
           · split at h
             · cases h
-            · exact ih _ _ _ _ (by intro a ha; cases ha) hacc h
+            · split at h
+              · exact ih _ _ _ _ _ (by intro a ha; cases ha) hacc h
+              · exact ih _ _ _ _ _ (by intro a ha; cases ha) hacc h
 
+/-- a value the caller wrote: positionally, or under some keyword -/
+def Written (args : List Nat) (kwargs : List (Nat × Nat)) (x : Option Nat) : Prop :=
+  x = none ∨ ∃ v, x = some v ∧ (v ∈ args ∨ ∃ k, (k, v) ∈ kwargs)
 
+/-- invariant of the loop, either mode: every input slot is a `None` placeholder or a value the caller wrote -/
+theorem sepLoop_inputs_written (args : List Nat) (kwargs : List (Nat × Nat)) (fill : Bool)
+    (ps : List SigParam) (rest : List Nat) (ins : List (Option Nat)) (attrs : List (Nat × Nat)) (hv : Bool) (tp : Nat)
+    (hrest : ∀ a ∈ rest, a ∈ args)
+    (hacc : ∀ x ∈ ins, Written args kwargs x)
+    {ins' : List (Option Nat)} {attrs' : List (Nat × Nat)} {hv' : Bool} {rest' : List Nat} {tp' : Nat}
+    (h : sepLoop kwargs fill ps rest ins attrs hv tp = .ok (ins', attrs', hv', rest', tp')) :
+    ∀ x ∈ ins', Written args kwargs x := by
+  induction ps generalizing rest ins attrs hv tp with
+  | nil =>
+    simp only [sepLoop, Except.ok.injEq, Prod.mk.injEq] at h
+    rcases h with ⟨rfl, _, _, _, _⟩; exact hacc
+  | cons p ps ih =>
+    have snoc : ∀ (y : Option Nat), Written args kwargs y → ∀ x ∈ ins ++ [y], Written args kwargs x := by
+      intro y hy x hx
+      rcases List.mem_append.mp hx with h1 | h1
+      · exact hacc x h1
+      · simp only [List.mem_singleton] at h1; subst h1; exact hy
+    simp only [sepLoop] at h
+    split at h
+    · refine ih _ _ _ _ _ (by intro a ha; cases ha) ?_ h
+      intro x hx
+      rcases List.mem_append.mp hx with h1 | h1
+      · exact hacc x h1
+      · rcases List.mem_map.mp h1 with ⟨a, ha, rfl⟩
+        exact Or.inr ⟨a, rfl, Or.inl (hrest a ha)⟩
+    · cases rest with
+      | cons a rest1 =>
+        simp only at h
+        have hr1 : ∀ x ∈ rest1, x ∈ args := fun x hx => hrest x (List.mem_cons_of_mem _ hx)
+        split at h
+        · exact ih _ _ _ _ _ hr1 (snoc _ (Or.inr ⟨a, rfl, Or.inl (hrest a List.mem_cons_self)⟩)) h
+        · exact ih _ _ _ _ _ hr1 hacc h
+      | nil =>
+        simp only at h
+        cases hk : findTok p.name kwargs with
+        | some v =>
+          rw [hk] at h; simp only at h
+          split at h
+          · exact ih _ _ _ _ _ (by intro a ha; cases ha)
+              (snoc _ (Or.inr ⟨v, rfl, Or.inr ⟨p.name, findTok_mem hk⟩⟩)) h
+          · exact ih _ _ _ _ _ (by intro a ha; cases ha) hacc h
+        | none =>
+          rw [hk] at h; simp only at h
+          split at h
+          · split at h
+            · exact ih _ _ _ _ _ (by intro a ha; cases ha) hacc h
+            · exact ih _ _ _ _ _ (by intro a ha; cases ha) hacc h
+          · split at h
+            · cases h
+            · split at h
+              · exact ih _ _ _ _ _ (by intro a ha; cases ha) (snoc _ (Or.inl rfl)) h
+              · exact ih _ _ _ _ _ (by intro a ha; cases ha) hacc h
 
 /-- attribute lists of the two modes: `F` (no fill) is `T` (fill) without some declared defaults -/
 def FillRel (params : List SigParam) (F T : List (Nat × Nat)) : Prop :=
@@ -698,38 +757,39 @@ theorem FillRel.snoc_default {params F T} (h : FillRel params F T) (p : SigParam
     exact Or.inr ⟨p, hp, hi, rfl, hd⟩
 
 theorem sepLoop_fill_vs_nofill (params : List SigParam) (kwargs : List (Nat × Nat))
-    (ps : List SigParam) (hps : ∀ p ∈ ps, p ∈ params) (rest ins : List Nat) (F T : List (Nat × Nat)) (hv : Bool)
+    (ps : List SigParam) (hps : ∀ p ∈ ps, p ∈ params) (rest : List Nat) (ins : List (Option Nat))
+    (F T : List (Nat × Nat)) (hv : Bool) (tp : Nat)
     (hrel : FillRel params F T)
-    {ins' : List Nat} {T' : List (Nat × Nat)} {hv' : Bool} {rest' : List Nat}
-    (h : sepLoop kwargs true ps rest ins T hv = .ok (ins', T', hv', rest')) :
-    ∃ F', sepLoop kwargs false ps rest ins F hv = .ok (ins', F', hv', rest') ∧ FillRel params F' T' := by
-  induction ps generalizing rest ins F T hv with
+    {ins' : List (Option Nat)} {T' : List (Nat × Nat)} {hv' : Bool} {rest' : List Nat} {tp' : Nat}
+    (h : sepLoop kwargs true ps rest ins T hv tp = .ok (ins', T', hv', rest', tp')) :
+    ∃ F', sepLoop kwargs false ps rest ins F hv tp = .ok (ins', F', hv', rest', tp') ∧ FillRel params F' T' := by
+  induction ps generalizing rest ins F T hv tp with
   | nil =>
     simp only [sepLoop, Except.ok.injEq, Prod.mk.injEq] at h
-    rcases h with ⟨rfl, rfl, rfl, rfl⟩
+    rcases h with ⟨rfl, rfl, rfl, rfl, rfl⟩
     exact ⟨F, rfl, hrel⟩
   | cons p ps ih =>
     have hps' : ∀ q ∈ ps, q ∈ params := fun q hq => hps q (List.mem_cons_of_mem _ hq)
     have hp : p ∈ params := hps p List.mem_cons_self
     simp only [sepLoop] at h ⊢
     split at h
-    next hc => simp only [hc, if_true]; exact ih hps' _ _ _ _ _ hrel h
+    next hc => simp only [hc, if_true]; exact ih hps' _ _ _ _ _ _ hrel h
     next hc =>
       simp only [hc]
       cases rest with
       | cons a rest1 =>
         simp only at h ⊢
         split at h
-        next hi => simp only [hi, if_true]; exact ih hps' _ _ _ _ _ hrel h
-        next hi => simp only [hi]; exact ih hps' _ _ _ _ _ (hrel.snoc_both _) h
+        next hi => simp only [hi, if_true]; exact ih hps' _ _ _ _ _ _ hrel h
+        next hi => simp only [hi]; exact ih hps' _ _ _ _ _ _ (hrel.snoc_both _) h
       | nil =>
         simp only at h ⊢
         cases hk : findTok p.name kwargs with
         | some v =>
           rw [hk] at h; simp only at h ⊢
           split at h
-          next hi => simp only [hi, if_true]; exact ih hps' _ _ _ _ _ hrel h
-          next hi => simp only [hi]; exact ih hps' _ _ _ _ _ (hrel.snoc_both _) h
+          next hi => simp only [hi, if_true]; exact ih hps' _ _ _ _ _ _ hrel h
+          next hi => simp only [hi]; exact ih hps' _ _ _ _ _ _ (hrel.snoc_both _) h
         | none =>
           rw [hk] at h; simp only at h ⊢
           cases hd : (if p.isInput = true then none else p.dflt) with
@@ -741,11 +801,81 @@ theorem sepLoop_fill_vs_nofill (params : List SigParam) (kwargs : List (Nat × N
               | true => simp [hpi] at hd
               | false => rfl
             have hd' : p.dflt = some d := by simpa [hi] using hd
-            exact ih hps' _ _ _ _ _ (hrel.snoc_default p hp hi d hd') h
+            exact ih hps' _ _ _ _ _ _ (hrel.snoc_default p hp hi d hd') h
           | none =>
             rw [hd] at h; simp only at h ⊢
             split at h
             · cases h
-            · next hr => simp only [hr]; exact ih hps' _ _ _ _ _ hrel h
+            · next hr =>
+              simp only [hr]
+              split at h
+              next hi => simp only [hi, if_true]; exact ih hps' _ _ _ _ _ _ hrel h
+              next hi => simp only [hi]; exact ih hps' _ _ _ _ _ _ hrel h
+
+/-- the input slots end in exactly `tp` placeholders, and what precedes them does not end in `None` -/
+def TpInv (ins : List (Option Nat)) (tp : Nat) : Prop :=
+  ∃ pre, ins = pre ++ List.replicate tp none ∧ pre.getLast? ≠ some none
+
+theorem TpInv.snoc_some {ins tp} (_h : TpInv ins tp) (a : Nat) : TpInv (ins ++ [some a]) 0 :=
+  ⟨ins ++ [some a], by simp, by simp⟩
+
+theorem TpInv.snoc_none {ins tp} (h : TpInv ins tp) : TpInv (ins ++ [none]) (tp + 1) := by
+  rcases h with ⟨pre, rfl, hl⟩
+  exact ⟨pre, by rw [List.replicate_succ', List.append_assoc], hl⟩
+
+theorem sepLoop_tp (kwargs : List (Nat × Nat)) (fill : Bool)
+    (ps : List SigParam) (rest : List Nat) (ins : List (Option Nat)) (attrs : List (Nat × Nat)) (hv : Bool) (tp : Nat)
+    (hinv : TpInv ins tp)
+    {ins' : List (Option Nat)} {attrs' : List (Nat × Nat)} {hv' : Bool} {rest' : List Nat} {tp' : Nat}
+    (h : sepLoop kwargs fill ps rest ins attrs hv tp = .ok (ins', attrs', hv', rest', tp')) :
+    TpInv ins' tp' := by
+  induction ps generalizing rest ins attrs hv tp with
+  | nil =>
+    simp only [sepLoop, Except.ok.injEq, Prod.mk.injEq] at h
+    rcases h with ⟨rfl, _, _, _, rfl⟩; exact hinv
+  | cons p ps ih =>
+    simp only [sepLoop] at h
+    split at h
+    · refine ih _ _ _ _ _ ?_ h
+      cases rest with
+      | nil => simpa using hinv
+      | cons a as =>
+        refine ⟨ins ++ (a :: as).map some, by simp, ?_⟩
+        intro hbad
+        rw [List.getLast?_append] at hbad
+        cases hl2 : ((a :: as).map some).getLast? with
+        | none => simp at hl2
+        | some x =>
+          rw [hl2] at hbad
+          have hbad : x = none := by simpa using hbad
+          have hx := List.mem_of_getLast? hl2
+          rcases List.mem_map.mp hx with ⟨y, _, hy⟩
+          rw [← hy] at hbad
+          cases hbad
+    · cases rest with
+      | cons a rest1 =>
+        simp only at h
+        split at h
+        · exact ih _ _ _ _ _ (hinv.snoc_some a) h
+        · exact ih _ _ _ _ _ hinv h
+      | nil =>
+        simp only at h
+        cases hk : findTok p.name kwargs with
+        | some v =>
+          rw [hk] at h; simp only at h
+          split at h
+          · exact ih _ _ _ _ _ (hinv.snoc_some v) h
+          · exact ih _ _ _ _ _ hinv h
+        | none =>
+          rw [hk] at h; simp only at h
+          split at h
+          · split at h
+            · exact ih _ _ _ _ _ hinv h
+            · exact ih _ _ _ _ _ hinv h
+          · split at h
+            · cases h
+            · split at h
+              · exact ih _ _ _ _ _ hinv.snoc_none h
+              · exact ih _ _ _ _ _ hinv h
 
 end OV.C17
